@@ -163,7 +163,6 @@ func (c *ServerConn) ServeOnce(storageClient StorageClient, stats *Stats) (err e
 			resp.Status = "PROCESS_TIMEOUT"
 			resp.Msg = "process_timeout"
 			logger.Errorf("process_timeout cmd %s, keys %v", req.Cmd, req.Keys)
-			return
 		}
 
 		req.SetStat("resp")
